@@ -272,7 +272,10 @@ func (k *Kernel) McastOp(fd, opt int, group, ifaddr, source [4]byte) syscall.Err
 		return syscall.EBADF
 	}
 	if f.kind != fkUDP {
-		return syscall.ENOPROTOOPT
+		if f.kind == fkSockNew || f.kind == fkTCP || f.kind == fkListener {
+			return syscall.EPROTO // ip_setsockopt: multicast options on a stream socket
+		}
+		return syscall.ENOTSOCK
 	}
 	u := f.udp
 	if !isMulticast(group) {
@@ -291,16 +294,17 @@ func (k *Kernel) McastOp(fd, opt int, group, ifaddr, source [4]byte) syscall.Err
 		u.members = append(u.members, mship{group: group, ifindex: ix})
 		return 0
 	case syscall.IP_DROP_MEMBERSHIP:
-		var i int
-		if ifaddr == ([4]byte{}) {
-			i = u.findM(group, 0) // first membership of the group, any device
-		} else {
-			ix, e := k.resolveIf(ifaddr)
-			if e != 0 {
-				return syscall.EADDRNOTAVAIL
+		// ip_mc_leave_group: ip_mc_find_dev resolves a zero interface address to the device the
+		// route to the group uses and stores its index in the request, so only a membership on
+		// that device matches (ENODEV if there is no such route)
+		ix, e := k.resolveIf(ifaddr)
+		if e != 0 {
+			if ifaddr == ([4]byte{}) {
+				return syscall.ENODEV
 			}
-			i = u.findM(group, ix)
+			return syscall.EADDRNOTAVAIL
 		}
+		i := u.findM(group, ix)
 		if i < 0 {
 			return syscall.EADDRNOTAVAIL
 		}
@@ -393,12 +397,25 @@ func (k *Kernel) McastOp(fd, opt int, group, ifaddr, source [4]byte) syscall.Err
 	return syscall.ENOPROTOOPT
 }
 
-// hostJoined: some socket on the host is a member of group on that device, so
-// the IP layer accepts the frame at all.
-func (k *Kernel) hostJoined(group [4]byte, ifindex int) bool {
+// hostJoined: ip_check_mc_rcu - the IP layer accepts a frame for group from
+// src on that device iff the device's aggregated filter admits it, that is iff
+// some socket's membership of the group on that device admits the source (an
+// any-source membership that does not block it, or a source-specific one that
+// lists it).
+func (k *Kernel) hostJoined(group, src [4]byte, ifindex int) bool {
 	for _, u := range k.udps {
 		for i := range u.members {
-			if u.members[i].group == group && u.members[i].ifindex == ifindex {
+			m := &u.members[i]
+			if m.group != group || m.ifindex != ifindex {
+				continue
+			}
+			found := false
+			for _, s := range m.sources {
+				if s == src {
+					found = true
+				}
+			}
+			if found == m.include {
 				return true
 			}
 		}
@@ -453,7 +470,7 @@ func (u *udpSock) accepts(d *Dgram) bool {
 func (k *Kernel) arrive(d Dgram) {
 	w := k.w
 	mc := isMulticast(d.DstIP)
-	if mc && !k.hostJoined(d.DstIP, d.IfIndex) {
+	if mc && !k.hostJoined(d.DstIP, d.SrcIP, d.IfIndex) {
 		w.Stat(statUDPFiltered)
 		k.UDPLog = append(k.UDPLog, UDPEvent{ID: d.ID, Action: "not-joined"})
 		w.Tracef("udp id=%d dropped: host not joined", d.ID)
@@ -606,6 +623,9 @@ func (k *Kernel) sendto(f *file, p []byte, ip [4]byte, port int) syscall.Errno {
 		u.bound, u.port = true, k.nextPort
 		f.so.bound, f.so.port = true, u.port
 	}
+	if ip == ([4]byte{}) {
+		ip = [4]byte{127, 0, 0, 1} // ip_route_output: a zero destination means this host
+	}
 	d := Dgram{Data: append([]byte(nil), p...), DstIP: ip, DstPort: port, SrcPort: u.port}
 	var out *Iface
 	if isMulticast(ip) {
@@ -637,7 +657,9 @@ func (k *Kernel) sendto(f *file, p []byte, ip [4]byte, port int) syscall.Errno {
 	w.Tracef("sendto fd=%d -> %v:%d len=%d via %s", f.fd, ip, port, len(p), out.Name)
 	// local delivery
 	if isMulticast(ip) {
-		if u.mcastLoop != 0 {
+		// IP_MULTICAST_LOOP governs the copy ip_mc_output makes; on the loopback device the
+		// transmitted frame itself comes back (exactly once), whatever the option says
+		if u.mcastLoop != 0 || out.Loopback {
 			loop := d
 			w.After(0, "udp-loop", func() { k.arrive(loop) })
 		}
